@@ -12,8 +12,9 @@ use crate::refmodel::layout::{self, FailKind, RefErr};
 use avra_lib::verif;
 use serde_json::{json, Value};
 
-const STRINGS: [&str; 16] = [
+const STRINGS: [&str; 30] = [
     "", "a", "ab", "abc", "Hello, World", "semi;colon", "a,b", "// not a comment", "/* nor this */", "it's", "  lead and trail  ", "ünïcödé", "日本", "tab\there", "#define", ".db 1",
+    "é", "éé", "€", "a\\x41b", "23\\xDFC", "\\x4", "\\n\\t\\0", "back\\", "c:\\avr\\", "a:b", "x\u{a0}y", "'", ",", "😀",
 ];
 
 fn boundary(width: u8, rng: &mut Rng) -> (i64, bool) {
@@ -267,8 +268,100 @@ fn grid(ctx: &Ctx) {
     }
 }
 
+/// Numbers of 2^63 and more cannot be written down as a value at all: whichever radix, however they reach
+/// a `.db`/`.dw`/`.dd` operand, they do not fit and the build must fail (`.dq` is left out: whether
+/// 0xFFFFFFFFFFFFFFFF fits eight bytes is a matter of reading).
+fn beyond_i64(ctx: &Ctx) {
+    let texts = [
+        "0xFFFFFFFFFFFFFFFF", "$FFFFFFFFFFFFFFFF", "0xffffffffffffff80", "0xFFFFFFFFFFFF8000", "$ffffffff80000000", "0x8000000000000000", "0x80000000000000FF",
+        "0b1111111111111111111111111111111111111111111111111111111111111111", "0b1111111111111111111111111111111111111111111111111111111110000000",
+        "18446744073709551615", "18446744073709551488", "9223372036854775808", "01777777777777777777777", "0x10000000000000000", "0x1FFFFFFFFFFFFFFFF",
+    ];
+    let mut n = 0u64;
+    for seg in [Seg::Code, Seg::Eeprom] {
+        for dir in [".db", ".dw", ".dd"] {
+            for t in texts {
+                for route in 0..4 {
+                    let body = match route {
+                        0 => format!("{} {}\n", dir, t),
+                        1 => format!(".equ big = {}\n{} big\n", t, dir),
+                        2 => format!(".macro put\n{} @0\n.endm\nput {}\n", dir, t),
+                        _ => format!("{} 1, {} & 0xff00 | {}, 2\n", dir, t, t),
+                    };
+                    let src = format!("{}\n{}", seg.directive(), body);
+                    let out = fw::build_str(&src);
+                    ctx.eval(1);
+                    n += 1;
+                    let sig = format!("data/out-of-range-accepted/{}/literal-beyond-i64", dir.trim_start_matches('.'));
+                    match &out {
+                        Outcome::Err(_) => {}
+                        Outcome::Ok(_) => ctx.violation(sig, format!("`{}` with {} (not representable, does not fit) was assembled", dir, t), json!({"source": src, "beyond_i64": true, "observed": out.brief()})),
+                        Outcome::Panic(p) => ctx.violation("data/panic", format!("`{} {}` panicked: {}", dir, t, fw::clip(p, 120)), json!({"source": src, "beyond_i64": true})),
+                    }
+                }
+            }
+        }
+    }
+    ctx.put("beyond_i64_literal_builds", json!(n));
+}
+
+/// Data lines inside macros that take arguments: the argument text is spliced into the line and the line is
+/// read again, which must leave the strings on that line byte for byte as written.
+fn through_macro_arguments(ctx: &Ctx) {
+    let mut rng = Rng::for_case(ctx.seed, 0xC06_A, 0);
+    let n = ctx.tier.pick(600u64, 20_000u64);
+    for i in 0..n {
+        let seg = if i % 2 == 0 { Seg::Code } else { Seg::Eeprom };
+        let s = if rng.chance(1, 2) { *rng.pick(&STRINGS[1..]) } else { ir::hostile_string(&mut rng, true) };
+        let a = rng.range(0, 255);
+        let b = rng.range(0, 255);
+        let shape = rng.below(4);
+        let (body, call, direct) = match shape {
+            0 => (format!(".db @0, \"{}\", @1", s), format!("put {}, {}", a, b), format!(".db {}, \"{}\", {}", a, s, b)),
+            1 => (format!(".db \"{}\", @0", s), format!("put {}", a), format!(".db \"{}\", {}", s, a)),
+            2 => (format!(".db @1, \"{}\", \"{}\", @0", s, s), format!("put {}, {}", a, b), format!(".db {}, \"{}\", \"{}\", {}", b, s, s, a)),
+            _ => (format!(".db \"{}\" ; @0 is not used here", s), format!("put {}", a), format!(".db \"{}\"", s)),
+        };
+        let tail = ".dw 0xbeef\nafter: .db low(after), high(after)\n";
+        let via = format!(".macro put\n{}\n.endm\n{}\n{}\n{}", body, seg.directive(), call, tail);
+        let plain = format!("{}\n{}\n{}", seg.directive(), direct, tail);
+        let mut bytes: Vec<u8> = vec![];
+        match shape {
+            0 => { bytes.push(a as u8); bytes.extend(s.as_bytes()); bytes.push(b as u8); }
+            1 => { bytes.extend(s.as_bytes()); bytes.push(a as u8); }
+            2 => { bytes.push(b as u8); bytes.extend(s.as_bytes()); bytes.extend(s.as_bytes()); bytes.push(a as u8); }
+            _ => bytes.extend(s.as_bytes()),
+        }
+        if seg == Seg::Code && bytes.len() % 2 == 1 {
+            bytes.push(0);
+        }
+        bytes.extend([0xef, 0xbe]);
+        let at = if seg == Seg::Code { bytes.len() / 2 } else { bytes.len() };
+        bytes.extend([(at & 0xff) as u8, (at >> 8) as u8]);
+        ctx.distinct(fw::hash_str(&via));
+        for (route, src) in [("in-macro-with-arguments", &via), ("direct", &plain)] {
+            let out = fw::build_str(src);
+            ctx.eval(1);
+            let img = match &out {
+                Outcome::Ok(o) => Some(if seg == Seg::Code { o.code.clone() } else { o.eeprom.clone() }),
+                _ => None,
+            };
+            if img.as_deref() != Some(&bytes[..]) {
+                ctx.violation(
+                    format!("data/image/{}/string/{}", seg.directive().trim_start_matches('.'), route),
+                    format!("`{}` ({}) gave {} instead of {}", direct, route, fw::clip(&format!("{:?}", out.brief()), 120), fw::hex(&bytes, 48)),
+                    json!({"source": src, "macro_arguments": true, "segment": seg.directive(), "expect_image": fw::hex(&bytes, 4096), "observed": out.brief()}),
+                );
+            }
+        }
+    }
+    ctx.put("string_lines_through_macro_arguments", json!(n));
+}
+
 pub fn run(ctx: &Ctx) -> i32 {
     grid(ctx);
+    beyond_i64(ctx);
+    through_macro_arguments(ctx);
     let n = ctx.tier.pick(5_000u64, 5_000_000u64);
     fw::par_for(n, 64, |i| {
         let mut rng = Rng::for_case(ctx.seed, 0xC06, i);
@@ -284,12 +377,29 @@ pub fn run(ctx: &Ctx) -> i32 {
     });
     fw::finish(
         ctx,
-        "programs of 1-10 .db/.dw/.dd/.dq lines in flash and EEPROM, 0-12 operands each mixing boundary literals, computed values, .equ symbols, random expressions and strings (empty, punctuation that looks like comments, non-ASCII UTF-8), `.byte n` between EEPROM data; one in three programs carries exactly one fault (value that does not fit its width, string in a word directive, data directive in .dseg); plus the complete width x boundary-value grid in both segments; every second valid program again with runs of its lines moved into argument-less macros (same images required); distinct_nontrivial = distinct program texts",
+        "programs of 1-10 .db/.dw/.dd/.dq lines in flash and EEPROM, 0-12 operands each mixing boundary literals, computed values, .equ symbols, random expressions and strings (empty, punctuation that looks like comments, non-ASCII UTF-8), `.byte n` between EEPROM data; one in three programs carries exactly one fault (value that does not fit its width, string in a word directive, data directive in .dseg); plus the complete width x boundary-value grid in both segments; every second valid program again with runs of its lines moved into argument-less macros (same images required); 360 must-fail builds with literals of 2^63 and more in every radix reaching .db/.dw/.dd directly, through .equ, through a macro argument and inside an expression; 600 (thorough 20000) .db lines with hostile strings (multi-byte characters, backslash sequences, colons, comment openers) inside macros that take arguments, against the same line written directly and the bytes computed by hand; distinct_nontrivial = distinct program texts",
         &["refmodel/layout.rs data rules; fits = signed or unsigned representation of the width"],
     )
 }
 
 pub fn replay(ctx: &Ctx, case: &Value) -> i32 {
+    if case["beyond_i64"].as_bool() == Some(true) || case["macro_arguments"].as_bool() == Some(true) {
+        let out = fw::build_str(case["source"].as_str().unwrap_or(""));
+        ctx.eval(1);
+        ctx.distinct(1);
+        ctx.distinct(2);
+        let bad = match (&out, case["expect_image"].as_str()) {
+            (Outcome::Panic(_), _) => true,
+            (Outcome::Ok(_), None) => true,
+            (Outcome::Err(_), None) => false,
+            (Outcome::Ok(o), Some(h)) => fw::hex(if case["segment"].as_str() == Some(".cseg") { &o.code } else { &o.eeprom }, 4096) != h,
+            (Outcome::Err(_), Some(_)) => true,
+        };
+        if bad {
+            ctx.violation("data/replay", "replayed case still deviates", case.clone());
+        }
+        return fw::finish(ctx, "replay", &[]);
+    }
     let src = case["source"].as_str().unwrap_or("");
     let out = fw::build_str(src);
     ctx.eval(1);
